@@ -72,7 +72,11 @@ def gen_case(rng: Rng, i: int, tier: str):
         arc["sessions"][0]["ops"].insert(0, {"op": "writestr", "name": "big-multiblock.bin", "content": {"tex": "rand", "len": multiblock["len"], "seed": rbk.randrange(1 << 30)}, "as": "bytes"})
         if op.get("op") == "extract" and "big-multiblock.bin" not in op.get("targets", []):
             op["targets"] = list(op["targets"]) + ["big-multiblock.bin"]
-    return {"archive": arc, "block": multiblock["block"] if multiblock else None,
+    r2c = rng.sub("second")
+    second = None
+    if r2c.chance(0.15):
+        second = {"op": "extractall"} if r2c.chance(0.5) else {"op": "extract", "targets": rsess.gen_targets(r2c, stub, absent_ok=True), "recursive": r2c.chance(0.5)}
+    return {"archive": arc, "block": multiblock["block"] if multiblock else None, "second": second,
             "call": op, "open": r.pick(["path", "stream", "anon"]), "handler_ms": r.wpick([(4, 0), (2, 1), (2, 10), (2, 50)]),
             "clock_jump": r.pick([0.0, 0.3, 1.5]), "scheds": scheds,
             # what else the callback object is: a plain object, a progress tracker that is also a sized collection of the
@@ -106,8 +110,10 @@ def _one(py7zr, built, case, strat, res):
     d = case["handler_ms"] / 1000.0
 
     class Rec(ExtractCallback):
+        tag = 0  # which extraction call of the session this callback object was given to
+
         def _ev(self, kind, *args):
-            hist.append((len(sched.events), sched.current, round(sched.now, 6), kind, args, phase["p"]))
+            hist.append((len(sched.events), sched.current, round(sched.now, 6), kind, args, phase["p"], self.tag))
             sched.log(("cb", kind))
             if d:
                 sched.sleep(d)
@@ -168,6 +174,18 @@ def _one(py7zr, built, case, strat, res):
                         z.extractall(callback=Rec(), **sinkkw)
                     else:
                         z.extract(targets=list(case["call"]["targets"]), recursive=case["call"]["recursive"], callback=Rec(), **sinkkw)
+                    if case.get("second") is not None:
+                        # a second extraction in the same session, after reset(), with a callback object of its own: each of
+                        # the two accounts must be complete and go to the object it was asked for
+                        z.reset()
+                        fac2 = F()
+                        cb2 = Rec()
+                        cb2.tag = 1
+                        if case["second"]["op"] == "extractall":
+                            z.extractall(callback=cb2, factory=fac2)
+                        else:
+                            z.extract(targets=list(case["second"]["targets"]), recursive=case["second"]["recursive"], callback=cb2, factory=fac2)
+                        out["products2"] = fac2.result()
                 except (SimKill, Deadlock):
                     raise
                 except Exception as e:
@@ -212,7 +230,25 @@ def _one(py7zr, built, case, strat, res):
 
 
 def check_history(built, case, o):
-    """Returns list of (oracle, detail)."""
+    """Returns list of (oracle, detail): one account per extraction call of the session."""
+    if case.get("second") is None or "products2" not in o:
+        return _check_account(built, case, o)
+    probs = []
+    for tag, call, prods in ((0, case["call"], o["products"]), (1, case["second"], o["products2"])):
+        sub_case = dict(case)
+        sub_case["call"] = call
+        sub_o = dict(o)
+        sub_o["hist"] = [h for h in o["hist"] if h[6] == tag]
+        sub_o["products"] = prods
+        for oracle, detail in _check_account(built, sub_case, sub_o):
+            ent = (oracle, "extraction call %d of the session: %s" % (tag + 1, detail))
+            if oracle in ("close_raised",) and any(p[0] == oracle for p in probs):
+                continue
+            probs.append(ent)
+    return probs
+
+
+def _check_account(built, case, o):
     probs = []
     hist = o["hist"]
     if o["extract_error"] is not None:
@@ -295,7 +331,7 @@ def run_case(case):
         backlog_s = o["queued_at_close"] * case["handler_ms"] / 1000.0
         bclass = "B" if backlog_s >= 0.95 else "A"
         cls = {"open": case["open"], "multi": built.nfolders > 1, "call": case["call"]["op"], "handler_ms": case["handler_ms"], "backlog_class": bclass,
-               "cb_shape": case.get("cb_shape", "plain"), "sink": case.get("sink", "factory")}
+               "cb_shape": case.get("cb_shape", "plain"), "sink": case.get("sink", "factory"), "calls": 2 if case.get("second") is not None else 1}
         cls.update(gen.dep_flags([s.get("chain") for s in case["archive"]["sessions"]], None, None))
         # what close() did: the listed backlog finding is about its InternalError after the 1 s join, nothing else
         cls["close_error"] = type(o["close_error"]).__name__ if o["close_error"] is not None else None
